@@ -281,8 +281,9 @@ def load_tu(unit_cpp, include_dirs, defines=(), std='c++14', cache_dir=None, ext
 
 class Lower:
     def __init__(self, tu, std, rec_alias=(), have_contract=lambda a: False, have_loop=lambda a, k: False,
-                 fn_alias=None, opaque=(), have_macro=lambda name: False):
+                 fn_alias=None, opaque=(), have_macro=lambda name: False, uf_mul=False):
         self.have_macro = have_macro
+        self.uf_mul = uf_mul       # unsigned 32/64-bit multiplication emitted as XV_UMULnn(a,b) (uninterpreted under CBMC)
         self.tu = tu
         self.std = std
         self.rec_alias = list(rec_alias)      # [(regex on normalised record type string, alias)]
@@ -1016,7 +1017,13 @@ class Lower:
             if self.pre or self.pending_exc_check:
                 raise Unsupported('may-throw in while condition')
             tag = self.loop_tag()
-            return I + 'while (%s)%s\n%s' % (sc, tag, self.block(body, ind))
+            k = self.loopk
+            pre = self.ghost_hook('BEFORE', k, ind)
+            gb = self.ghost_hook('BODY', k, ind + 1)
+            bt = self.block(body, ind)
+            if gb:
+                bt = bt.replace('{', '{\n' + gb[0], 1)
+            return '\n'.join(pre + [I + 'while (%s)%s\n%s' % (sc, tag, bt)] + self.ghost_after(k, ind))
         if k == 'DoStmt':
             body, cond = n['inner']
             tag = self.loop_tag()
@@ -1079,6 +1086,12 @@ class Lower:
             return self.stmt(n, ind)
         I = '  ' * ind
         return I + '{\n' + self.stmt(n, ind + 1) + '\n' + I + '}'
+
+    def ghost_hook(self, kind, k, ind):
+        name = 'XV_GHOST_%s_%s_%d' % (kind, self.cur_nm, k)
+        if self.have_macro(name):
+            return ['  ' * ind + name + ';']
+        return []
 
     def ghost_after(self, k, ind):
         """ghost statement hook after loop k (defined in the contracts header; may only assign xv_* ghost variables)"""
@@ -1472,6 +1485,10 @@ class Lower:
                 return '(%s %s %s)' % (a, op, b)
             if op in ('.*', '->*'):
                 raise Unsupported('pointer to member')
+            if op == '*' and self.uf_mul:
+                ct = self.ctype(dq(n['type']))
+                if ct in ('unsigned int', 'unsigned long'):
+                    return 'XV_UMUL%d(%s, %s)' % (32 if ct == 'unsigned int' else 64, self.rv(l), self.rv(r))
             return '(%s %s %s)' % (self.rv(l), op, self.rv(r))
         if k == 'CompoundAssignOperator':
             l, r = n['inner']
@@ -1480,6 +1497,8 @@ class Lower:
             lt = dq(n.get('computeLHSType', n['type']))
             op = n['opcode'][:-1]
             ll = self.lv(l)
+            if op == '*' and self.uf_mul and ct in ('unsigned int', 'unsigned long') and self.ctype(comp) == ct and self.ctype(lt) == ct:
+                return '(%s = XV_UMUL%d(%s, %s))' % (ll, 32 if ct == 'unsigned int' else 64, ll, self.rv(r))
             # make the usual arithmetic conversions of C++ explicit
             if self.ctype(lt) != ct or self.ctype(comp) != ct:
                 return '(%s = (%s)((%s)%s %s %s))' % (ll, ct, self.ctype(lt), ll, op, self.rv(r))
